@@ -1,6 +1,11 @@
 import EdpVerif.Basic.Bytes
+import EdpVerif.Generated.Misc
 /-!
-Model of `crates/edp_client/src/fragmentation.rs`, function by function, bug-for-bug.
+Model of `crates/edp_client/src/fragmentation.rs`, function by function, bug-for-bug (the code after the repairs
+7a903d6 — counts above the slot-vector limit go through the pending map — and e936302 — a header whose count conflicts
+with the known count of its sequence is ignored), and of the use `Connection::receive_message` makes of its assembler
+(f40d0e7: `cleanup_expired` once per received frame; `Assembler.onFrame`).
+The constants come from the source through the translator (`tools/gen_misc.py` → `Generated/Misc.lean`).
 
 * `u64`/`usize` values are `Nat` (no arithmetic in the Rust code can overflow: the only subtraction is `fragment_id - 1`
   behind `fragment_id != 0`, the only additions are `received_count += 1`; `as usize` is the identity on a 64-bit target).
@@ -12,10 +17,12 @@ Core Lean only (linked into the driver executable).
 -/
 namespace Edp.Frag
 
-/-- `const MAX_FRAGMENTS_VEC: u64 = 100_000` -/
-def MAX_FRAGMENTS_VEC : Nat := 100000
-/-- `const MAX_FRAGMENT_COUNT: u64 = 1_000_000` -/
-def MAX_FRAGMENT_COUNT : Nat := 1000000
+/-- `const MAX_FRAGMENTS_VEC: u64` (extracted from the source on every run) -/
+def MAX_FRAGMENTS_VEC : Nat := Gen.MAX_FRAGMENTS_VEC
+/-- `const MAX_FRAGMENT_COUNT: u64` (extracted from the source on every run) -/
+def MAX_FRAGMENT_COUNT : Nat := Gen.MAX_FRAGMENT_COUNT
+/-- `DEFAULT_FRAGMENT_TIMEOUT` in milliseconds (extracted from the source on every run) -/
+def DEFAULT_FRAGMENT_TIMEOUT : Nat := Gen.DEFAULT_FRAGMENT_TIMEOUT_MS
 
 /-- `struct FragmentedMessage` (`total` is the `FragmentCount` inside the option) -/
 structure FragMsg where
@@ -51,25 +58,42 @@ def FragMsg.place (m : FragMsg) (fid : Nat) (data : Bytes) : FragMsg :=
     | _ => m
   else m
 
+/-- `pending_fragments.get(&fragment_id)` (the map has one entry per key: `buffer` inserts only into a vacant entry) -/
+def pendGet (fid : Nat) : List (Nat × Bytes) → Option Bytes
+  | [] => none
+  | (k, d) :: r => if k = fid then some d else pendGet fid r
+
+/-- `if let Entry::Vacant(e) = self.pending_fragments.entry(fragment_id) { e.insert(data); … }`: the first copy wins;
+`counted` says whether the insertion bumps `received_count` (it does once the count is known) -/
+def FragMsg.buffer (m : FragMsg) (counted : Bool) (fid : Nat) (data : Bytes) : FragMsg :=
+  if m.pend.any (fun p => p.1 == fid) then m
+  else { m with pend := m.pend ++ [(fid, data)], received := if counted then m.received + 1 else m.received }
+
 /-- `FragmentedMessage::add_fragment` -/
 def FragMsg.addFragment (m : FragMsg) (now fid : Nat) (data : Bytes) : FragMsg :=
   let m := { m with last := now }
   if fid = 0 then m else
   match m.total with
-  | some c => if fid ≤ c then m.place fid data else m
-  | none =>
-    if m.pend.any (fun p => p.1 == fid) then m
-    else { m with pend := m.pend ++ [(fid, data)] }
+  | some c =>
+    if fid ≤ c then
+      if MAX_FRAGMENTS_VEC < c then m.buffer true fid data else m.place fid data
+    else m
+  | none => m.buffer false fid data
 
 /-- the loop body of `set_total_fragments` over the drained pending fragments -/
 def FragMsg.placePending (c : Nat) (m : FragMsg) (p : Nat × Bytes) : FragMsg :=
   if 0 < p.1 ∧ p.1 ≤ c then m.place p.1 p.2 else m
 
-/-- `FragmentedMessage::set_total_fragments` (note: `received_count` is not recomputed when `resize` truncates) -/
+/-- `FragmentedMessage::set_total_fragments`: above the vector limit the buffered fragments stay in the pending map
+(`retain` those with an id up to the count; `received_count = pending_fragments.len()`), otherwise `resize` and the drain of
+the pending map into the slots -/
 def FragMsg.setTotal (m : FragMsg) (c : Nat) : FragMsg :=
   if m.total = some c then m else
   let m := { m with total := some c }
-  if MAX_FRAGMENTS_VEC < c then m else
+  if MAX_FRAGMENTS_VEC < c then
+    let kept := m.pend.filter (fun p => decide (p.1 ≤ c))
+    { m with pend := kept, received := kept.length }
+  else
   let pending := m.pend
   let m := { m with slots := resize m.slots c, pend := [] }
   pending.foldl (FragMsg.placePending c) m
@@ -84,9 +108,17 @@ def FragMsg.isComplete (m : FragMsg) : Bool :=
 def FragMsg.isExpired (m : FragMsg) (now timeout : Nat) : Bool :=
   decide (timeout < now - m.last)
 
-/-- `FragmentedMessage::reassemble`: atom-cache data, then the slots in index order, i.e. ASCENDING fragment id -/
+/-- `FragmentedMessage::reassemble`: atom-cache data, then the fragments by ASCENDING fragment id — above the vector limit
+the pending map read by fragment id `1..=count`, otherwise the slots in index order -/
 def FragMsg.reassemble (m : FragMsg) : Option Bytes :=
-  if m.isComplete then some (m.cache.getD [] ++ (m.slots.filterMap id).flatten) else none
+  if m.isComplete then
+    some (m.cache.getD [] ++
+      (match m.total with
+        | some c =>
+          if MAX_FRAGMENTS_VEC < c then ((List.range c).filterMap (fun i => pendGet (i + 1) m.pend)).flatten
+          else (m.slots.filterMap id).flatten
+        | none => (m.slots.filterMap id).flatten))
+  else none
 
 /-! ### the `pending` map -/
 
@@ -106,8 +138,11 @@ structure Assembler where
   timeout : Nat
 deriving Repr
 
-/-- `FragmentAssembler::with_timeout` (`new` = `with_timeout(30 s)`) -/
+/-- `FragmentAssembler::with_timeout` -/
 def Assembler.new (timeout : Nat) : Assembler := { pending := [], timeout := timeout }
+
+/-- `FragmentAssembler::new()` = `with_timeout(DEFAULT_FRAGMENT_TIMEOUT)` (clock unit: milliseconds) -/
+def Assembler.default : Assembler := Assembler.new DEFAULT_FRAGMENT_TIMEOUT
 
 /-- `FragmentAssembler::start_fragment` -/
 def Assembler.startFragment (a : Assembler) (now seq fid : Nat) (cache : Option Bytes) (payload : Bytes) :
@@ -116,6 +151,8 @@ def Assembler.startFragment (a : Assembler) (now seq fid : Nat) (cache : Option 
   if fid = 0 ∨ MAX_FRAGMENT_COUNT < fid then (a, none) else
   match lookup seq a.pending with
   | some msg =>
+    -- `msg.total_fragments.is_some_and(|known| known != count)`: a conflicting header is ignored
+    if msg.total.isSome ∧ msg.total ≠ some fid then (a, none) else
     let msg := ({ msg.setTotal fid with cache := cache }).addFragment now fid payload
     if msg.isComplete then ({ a with pending := eraseKey seq a.pending }, msg.reassemble)
     else ({ a with pending := insertKey seq msg a.pending }, none)
@@ -182,5 +219,25 @@ def Assembler.outsFor (q : Nat) (a : Assembler) : List Op → List (Option Bytes
   | o :: r =>
     if o.seq = some q then (a.step o).2 :: Assembler.outsFor q (a.step o).1 r
     else Assembler.outsFor q (a.step o).1 r
+
+/-! ### what a connection does to its assembler for one received frame (`Connection::receive_message`, one loop iteration) -/
+
+/-- the clock value an event observes -/
+def Op.now : Op → Nat
+  | .start now _ _ _ _ => now
+  | .add now _ _ _ => now
+  | .cleanup now => now
+
+/-- one received frame at clock `now`: `self.fragment_assembler.cleanup_expired()` first (every frame, ticks included), then —
+for a fragment frame — `start_fragment` / `add_fragment` (`o`; `none` for every other frame) -/
+def Assembler.onFrame (a : Assembler) (now : Nat) (o : Option Op) : Assembler × Option Bytes :=
+  match o with
+  | none => ((a.cleanupExpired now).1, none)
+  | some o => (a.cleanupExpired now).1.step o
+
+/-- the assembler of a connection after a list of received frames -/
+def Assembler.afterFrames (a : Assembler) : List (Nat × Option Op) → Assembler
+  | [] => a
+  | f :: r => (a.onFrame f.1 f.2).1.afterFrames r
 
 end Edp.Frag
